@@ -323,7 +323,13 @@ func setTabOpts(a map[string]interface{}) {
 func runTab(a map[string]interface{}) ([]tabular.TabularOutputResult, tree.ParsingError) {
 	setTabOpts(a)
 	format := tabular.OUTPUT_TYPE_CSV
+	if raw, ok := a["fmtraw"].(string); ok {
+		a = copyArgs(a)
+		a["fmt"] = "\x00raw"
+		format = raw
+	}
 	switch aStr(a, "fmt") {
+	case "\x00raw":
 	case "gs":
 		format = tabular.OUTPUT_TYPE_GOOGLE_SHEETS
 	case "csv", "":
@@ -362,7 +368,23 @@ func opTab(a map[string]interface{}) (string, string, interface{}) {
 	return "ok", "", obs
 }
 
+func copyArgs(a map[string]interface{}) map[string]interface{} {
+	b := map[string]interface{}{}
+	for k, v := range a {
+		b[k] = v
+	}
+	return b
+}
+
 func setVisOpts(a map[string]interface{}) {
+	if _, ok := a["dyn"]; ok {
+		tabular.SetDynamicOutput(aBool(a, "dyn"))
+	} else {
+		tabular.SetDynamicOutput(false)
+	}
+	if _, ok := a["ext"]; ok {
+		tabular.SetProduceIGExtendedOutput(aBool(a, "ext"))
+	}
 	tree.SetFlatPrinting(aBool(a, "flat"))
 	tree.SetBinaryPrinting(aBool(a, "bin"))
 	tree.SetMoveActivationConditionsToFront(aBool(a, "ac"))
